@@ -55,8 +55,8 @@ theorem density_grouped (T S P : ℝ) (hT : T < 273.15 + 40) :
   have h : (T < (273.15 : ℝ) + 40) := hT
   simp only [SeawaterPy.density, Num.real_ofSci, Num.real_ofNat, Num.real_one, Num.real_zero, Num.real_npow,
     Num.real_rpow, if_pos h, N0, K0, KA, KB, Kw, k1, k2, Aw, a1, Bw, b1]
-  congr 2
-  congr 1
+  -- `ring` normalises inside the inverses, so this also closes after an algebraically equivalent rewrite of
+  -- seawater.density (Horner form, regrouped polynomials); it does not depend on the shape of the generated term
   ring
 
 theorem frac_mono (N K0 A B p1 p2 : ℝ) (hN : 0 < N) (h12 : p1 < p2) (hp1 : 0 ≤ p1)
